@@ -100,6 +100,13 @@ func tsigDigest(msg []byte, key tsigKey, keyNameOnWire string, o signOpts) []byt
 // msg is a complete DNS message without TSIG.
 func tsigSign(msg []byte, key tsigKey, keyNameOnWire string, o signOpts) (out, mac []byte, tsigOff int) {
 	mac = tsigDigest(msg, key, keyNameOnWire, o)
+	out, tsigOff = tsigAppend(msg, key, keyNameOnWire, o, mac)
+	return
+}
+
+// tsigAppend appends a TSIG RR carrying the given MAC octets (whatever their number; MAC Size and
+// RDLENGTH follow) to msg.
+func tsigAppend(msg []byte, key tsigKey, keyNameOnWire string, o signOpts, mac []byte) (out []byte, tsigOff int) {
 	out = append([]byte{}, msg...)
 	binary.BigEndian.PutUint16(out[10:], binary.BigEndian.Uint16(out[10:])+1)
 	tsigOff = len(out)
